@@ -238,3 +238,17 @@ def rect(V, e, label="rect"):
 def ensure_rect(V, e, label):
     for l, f in rect(V, e, label):
         V.ensure(l, f)
+
+
+def share_atoms(V, m, which=None, name="elsewhere"):
+    """History: some atoms of `m` were ALSO handed to another, non-copying container (e.g. Promolecule(m.atoms[1:]), whose constructor
+    re-points the atoms' parent back-reference).  They are still atoms of `m`, at the same positions; in the other container they sit at
+    other positions.  Code that takes an atom's position from `atom.idx` (= position in atom.parent) instead of from `m` goes wrong."""
+    I = V.I
+    ats = m.fields["_atoms"].items
+    which = list(which) if which is not None else list(range(len(ats) - 1, 0, -1))   # all but the first, in reverse order
+    other = mk_mol(V, "Molecule", 0, (), name=name)
+    other.fields["_atoms"].items.extend(ats[i] for i in which)
+    for i in which:
+        ats[i].fields["_parent"] = Obj(I.WeakrefCls, {"ref": other}, tag="weakref")
+    return other
